@@ -23,22 +23,31 @@ MOD = "mc.props.c01"
 CORNERS = [(False, False), (False, True), (True, False), (True, True)]  # (allow_text, drop_unsupported)
 
 
-def convert(doc, ndigits, allow_text, drop):
+def convert(doc, ndigits, allow_text, drop, entry="fromstring"):
     from picosvg.svg import SVG
 
     try:
-        out = SVG.fromstring(doc).topicosvg(ndigits=ndigits, allow_text=allow_text, drop_unsupported=drop).tostring()
+        if entry == "tree":
+            # the caller parses the text himself (lxml defaults keep comments, PIs, blank text) and hands over the tree
+            from lxml import etree
+
+            src = SVG(etree.fromstring(doc.encode("utf-8")))
+        else:
+            src = SVG.fromstring(doc)
+        out = src.topicosvg(ndigits=ndigits, allow_text=allow_text, drop_unsupported=drop).tostring()
         return "returned", out
     except Exception as e:  # noqa
         return "raised:" + type(e).__name__, f"{type(e).__name__}: {e}"
 
 
-def judge(doc, reduced_doc, ndigits, allow_text, drop, has_unsupported):
+def judge(doc, reduced_doc, ndigits, allow_text, drop, has_unsupported, entry="fromstring"):
     """-> (outcome, [complaints], out)"""
-    o, out = convert(doc, ndigits, allow_text, drop)
+    o, out = convert(doc, ndigits, allow_text, drop, entry)
     why = []
     if o == "returned":
         why = R4.validate(out, ndigits=ndigits, allow_text=allow_text, require_stops=True)
+        if "<!--" in out or "<?" in out:
+            why.append("comment / processing instruction survives")
         if not allow_text and ("<text" in out or "<tspan" in out):
             why.append("text content survives without allow_text")
     elif drop and has_unsupported and reduced_doc is not None:
@@ -60,10 +69,11 @@ def evaluate(case):
     nts = set()
     n = 0
     sample = None
-    for nd, at, dr in case["configs"]:
+    for nd, at, dr, *rest in list(case["configs"]) + [(3, False, True, "tree")]:
         n += 1
-        o, why, out = judge(doc, red, nd, at, dr, hu)
-        outs[o] += 1
+        entry = rest[0] if rest else "fromstring"
+        o, why, out = judge(doc, red, nd, at, dr, hu, entry)
+        outs[o if entry == "fromstring" else "tree-" + o] += 1
         if o == "returned" and any(k in G.NESTED or k.split(":")[-1].split("+")[0] in G.FORBIDDEN_IN_OUTPUT or ":" in k for k in ks):
             nts.add(core.h64(doc + repr((nd, at, dr))))
             if sample is None and len(ks) > 1:
@@ -73,7 +83,7 @@ def evaluate(case):
             viols.append(
                 {
                     "sig": {"kind": kind, "first": why[0].split(" at ")[0][:60], "group_child_count": any("element children survives" in w for w in why), "only_group_children": all("element children survives" in w for w in why)},
-                    "case": {"fam": "doc", "doc": doc, "reduced": red, "ndigits": nd, "allow_text": at, "drop": dr, "unsupported": hu, "kinds": ks, "root": root},
+                    "case": {"fam": "doc", "doc": doc, "reduced": red, "ndigits": nd, "allow_text": at, "drop": dr, "unsupported": hu, "kinds": ks, "root": root, "entry": entry},
                     "detail": {"why": "; ".join(why)[:1500], "output": out[:3000]},
                 }
             )
@@ -199,7 +209,7 @@ def run(run):
 def replay(case):
     if case.get("fam") == "cli":
         return evaluate_cli(case)["viol"]
-    o, why, out = judge(case["doc"], case.get("reduced"), case["ndigits"], case["allow_text"], case["drop"], case.get("unsupported", False))
+    o, why, out = judge(case["doc"], case.get("reduced"), case["ndigits"], case["allow_text"], case["drop"], case.get("unsupported", False), case.get("entry", "fromstring"))
     if why:
         return [{"sig": {"kind": "grammar" if o == "returned" else "drop-unsupported-failed"}, "case": case, "detail": {"why": "; ".join(why), "output": out[:3000]}}]
     return []
